@@ -11,6 +11,10 @@ C02 specification, written from the property text. Only *data types* of the mode
   metadata type / not a content-metadata document).
 * `expectedT` is the decision table: which callbacks must run, in which order, shown what, and what must be on disk
   afterwards (`Outcome`).
+* A call that fails because `existing_layer_strategy` or `update` fails (`Outcome.declined`) leaves the layer as it
+  was — except that a metadata replacement the migration callback asked for earlier in the same call has been
+  carried out (metadata on disk = the replacement, stored types, directory, SBOMs as before): the migration
+  callback's request does not depend on the answers of the callbacks consulted after it.
 * `handleOk` compares an observed step (callback log, returned layer data seen through `apply` probes, layer after
   the call) with the table: after create/update the layer is exactly the returned `LayerResult` (types, metadata,
   env directories = the CNB layout of the returned env, exec.d set, SBOM set, the callback's files; created layers
@@ -29,6 +33,11 @@ inductive Outcome
   /-- the layer as it was, carrying metadata `m`, types refreshed -/
   | keep (m : Option MetaTbl)
   | error (k : ErrKind)
+  /-- a callback consulted about an existing layer fails (`existing_layer_strategy`, or `update` after the strategy
+  asked for it): the buildpack error is reported and the layer is as it was, carrying metadata `m` — its own
+  metadata, or the replacement the migration callback asked for (that request is not conditional on what later
+  callbacks answer: "migrated exactly as the migration callback asks") -/
+  | declined (m : Option MetaTbl)
 
 /-- a missing layer (or one to be recreated): `create` runs once, on an empty directory -/
 def createT (L : LDef) (log : List TCall) : List TCall × Outcome :=
@@ -41,11 +50,11 @@ def afterValidT (L : LDef) (m : Option MetaTbl) (log : List TCall) : List TCall 
   let log := log ++ [.strategy (seenAs L.mt m)]
   match L.strategy with
   | .keep => (log, .keep m)
-  | .fail => (log, .error .buildpack)
+  | .fail => (log, .declined m)
   | .recreate => createT L log
   | .update =>
     match L.update with
-    | .fail => (log ++ [.update (seenAs L.mt m)], .error .buildpack)
+    | .fail => (log ++ [.update (seenAs L.mt m)], .declined m)
     | .ok r => (log ++ [.update (seenAs L.mt m)], .persist r false)
 
 /-- expected callback log and outcome. `none` = outside the property's quantifier (a replacement metadata that does
@@ -195,6 +204,18 @@ def isErr (obs : TObs) (k : ErrKind) : Bool :=
   | .err k' => k' == k
   | _ => false
 
+/-- the types stored in the layer's metadata file (none: no file, or a document without a types table) -/
+def storedTypes (l : Layer) : Option LTypes :=
+  match l.toml with
+  | some (.doc t _) => t
+  | _ => none
+
+/-- the metadata file is a document with exactly these types and this metadata -/
+def docIs (l : Layer) (t : Option LTypes) (m : Option MetaTbl) : Bool :=
+  match l.toml with
+  | some (.doc t' m') => t' == t && m' == m
+  | _ => false
+
 /-- The clauses of C02 for one call on layer `pre` (located at `lp`), ending in `post`, with returned data `obs`
 and callback log `log`. `strictMeta = false` weakens exactly one clause: after keep the stored metadata is
 compared as the layer's metadata type sees it (used only to recognise the known deviation
@@ -206,6 +227,11 @@ def handleOk (lp : Bytes) (pre post : Layer) (L : LDef) (obs : TObs) (log : List
     log == elog &&
     match oc with
     | .error k => isErr obs k
+    | .declined m =>
+      isErr obs .buildpack &&
+        match post.dir, pre.dir with
+        | some d, some d0 => docIs post (storedTypes pre) m && sameSboms post.sboms pre.sboms && keepDirOk d0 d
+        | _, _ => false
     | .persist r fresh =>
       match progsOf r.execd with
       | none => isErr obs .missingExecd
